@@ -40,11 +40,55 @@ def destination_only_file_check():
     return out
 
 
+def exclude_entry_points_check():
+    """'every non-excluded source file absent from the destination is now present': an exclude pattern given as a string (the documented
+    form) or as a list, through Job.sync, Project.sync, sync_jobs and sync_projects -- exactly the files matching it stay away"""
+    import logging
+    import re
+    import signac
+    from signac.sync import sync_jobs, sync_projects
+    logging.disable(logging.CRITICAL)
+    out = []
+    names = ["test.txt", "e.dat", "s", "t", "keep.bak", "other.bak", "x_keep"]
+    for entry in ("Job.sync", "Project.sync", "sync_jobs", "sync_projects"):
+        for exclude in ("keep", r".*\.bak", ["keep", "other"], "test"):
+            with dir_scratch() as d:
+                os.makedirs(d + "/src")
+                os.makedirs(d + "/dst")
+                src, dst = signac.init_project(d + "/src"), signac.init_project(d + "/dst")
+                js, jd = src.open_job({"a": 1}).init(), dst.open_job({"a": 1}).init()
+                for n in names:
+                    open(js.fn(n), "w").write(n)
+                call = {"Job.sync": lambda: jd.sync(js, exclude=exclude), "Project.sync": lambda: dst.sync(src, exclude=exclude),
+                        "sync_jobs": lambda: sync_jobs(js, jd, exclude=exclude), "sync_projects": lambda: sync_projects(src, dst, exclude=exclude)}[entry]
+                try:
+                    with contextlib.redirect_stdout(io.StringIO()):
+                        call()
+                except Exception as e:
+                    out.append((f"{entry}:{exclude}", f"{entry}(exclude={exclude!r}) raised {type(e).__name__}: {e}"))
+                    continue
+                pats = [exclude] if isinstance(exclude, str) else list(exclude)
+                want = sorted(n for n in names if not any(re.match(p_, n) for p_ in pats))
+                got = sorted(n for n in os.listdir(jd.path) if n in names)
+                if got != want:
+                    out.append((f"{entry}:{exclude}", f"{entry}(exclude={exclude!r}): the destination job received {got}, the source files not matching the pattern are {want}"))
+    return out
+
+
 def run(tier="quick", seed=0):
     r = run_focus("C13", tier, seed, Budget(14 if tier == "quick" else 300))
     for level, msg in destination_only_file_check():
         r["failures"].append({"key": "destination-only:backup-named-file:" + level, "description": msg,
                               "script": script_header() + "sys.path.insert(0, '/verif')\nfrom pybound.c13 import destination_only_file_check\nr = destination_only_file_check()\nassert not r, r\n"})
+    try:
+        found = exclude_entry_points_check()
+    except Exception as e:
+        found = [("raised", f"exclude_entry_points_check raised {type(e).__name__}: {e}")]
+    for key, msg in found[:3]:
+        r["failures"].append({"key": "exclude:entry-point:" + key, "description": msg,
+                              "script": script_header() + "sys.path.insert(0, '/verif')\nfrom pybound.c13 import exclude_entry_points_check\nr = exclude_entry_points_check()\nassert not r, r\n"})
+    r["evaluations"] += 16
+    r["scope"] += "; exclude patterns as string and list through all four entry points"
     r["evaluations"] += 2
     r["scope"] += "; a destination-only file named like a document backup next to a document that is merged (job and project level): untouched by a sync that returns"
     return r
